@@ -382,7 +382,8 @@ Section Inv.
                             obj_assign_all empty_obj vtr = Some o /\ heap_get (d_heap st) g = Some o;
     c_lens : forall g i l', In (g, i) b -> qheap_get (q_heap pst) i = Some (OList l') ->
              cur_len st g = Nlen l';
-    c_proto : d_proto st = q_proto pst }.
+    c_proto : d_proto st = q_proto pst;
+    c_stale : d_stale st = false }.
 
   (* ---- generic facts ------------------------------------------------------------------------ *)
 
@@ -525,7 +526,7 @@ Section Steps.
      recorded: the known finding's territory, nothing more is claimed) *)
   Definition step_ok (st : dstate) (pst' : qstate) (idx : N) (bytes_ : bytes) (rest : bytes) : Prop :=
     exists b' st', exec cfg idx st (bytes_ ++ rest) (idx + 1) st' rest /\
-                   (d_stale st' = true \/ CoreI b' st' pst').
+                   ((d_stale st' = true /\ (bytes_ = [x61] \/ bytes_ = [x65])) \/ CoreI b' st' pst').
 
   Lemma core_stack_only : forall b st pst s s',
     CoreI b st pst -> Forall2 (item_rel pd su b (q_heap pst)) s s' ->
@@ -919,6 +920,7 @@ Section StepsC.
     - rewrite Hh. exact c_dicts0.
     - intros g i0 l' Hi Hg. unfold cur_len. rewrite Ll. exact (c_lens0 g i0 l' Hi Hg).
     - rewrite Pp. exact c_proto0.
+    - rewrite Zz. exact c_stale0.
   Qed.
 End StepsC.
 
@@ -1104,6 +1106,7 @@ Section StepsE.
         fold lid. match goal with |- cur_len (set_stack ?a ?c) ?g0 = _ => change (cur_len (set_stack a c) g0) with (cur_len a g0) end.
         rewrite cur_len_set_len_other by exact Ng. exact (c_lens0 g i l' H Hg).
     - exact c_proto0.
+    - cbn [set_stack set_len fresh snd d_stale]. rewrite orb_false_r. exact c_stale0.
   Qed.
 
   (* EMPTY_LIST *)
@@ -1140,14 +1143,14 @@ Section StepsF.
   Notation irel := (item_rel pd su).
 
   (* a list object extended through a view that shows all of it *)
-  Lemma core_list_extend : forall b st pst lid id items l' add addp below t fl,
+  Lemma core_list_extend : forall b st pst lid id items l' add addp below t,
     CoreI b st pst -> In (lid, id) b -> qheap_get (q_heap pst) id = Some (OList l') ->
     Forall2 (Rr b (q_heap pst)) items l' ->
     Forall2 (Rr b (q_heap pst)) add addp -> Forall2 (irel b (q_heap pst)) below t ->
-    CoreI b (set_stack (set_len st lid (Nlen items + Nlen add) fl) (VList lid (items ++ add) :: below))
+    CoreI b (set_stack (set_len st lid (Nlen items + Nlen add) false) (VList lid (items ++ add) :: below))
             (qmutate pst id (OList (l' ++ addp)) (QObj (QRef id) :: t)).
   Proof.
-    intros b st pst lid id items l' add addp below t fl C Hin Hg Fi Fa Fb.
+    intros b st pst lid id items l' add addp below t C Hin Hg Fi Fa Fb.
     set (ph' := qheap_set (q_heap pst) id (OList (l' ++ addp))).
     assert (Hh : hext (q_heap pst) ph') by (apply hext_append; exact Hg).
     assert (Hb : incl b b) by (intros p Hp; exact Hp).
@@ -1185,6 +1188,7 @@ Section StepsF.
         match goal with |- cur_len (set_stack ?a ?c) ?g0 = _ => change (cur_len (set_stack a c) g0) with (cur_len a g0) end.
         rewrite cur_len_set_len_other by exact Ng. exact (c_lens0 g i l2 Hi Hgi).
     - exact c_proto0.
+    - cbn [set_stack set_len d_stale]. rewrite orb_false_r. exact c_stale0.
   Qed.
 
   (* a view that shows the whole list *)
@@ -1217,10 +1221,10 @@ Section StepsF.
     - destruct (n =? cur_len st lid) eqn:En.
       + right. apply N.eqb_eq in En. destruct (full_view _ _ _ _ _ _ C R2 En) as [Hin [l2 [Hg2 Fi]]].
         rewrite Hg in Hg2. inversion Hg2; subst l2.
-        pose proof (core_list_extend b st pst lid id items l' [v] [x] s2 t (negb true) C Hin Hg Fi
+        pose proof (core_list_extend b st pst lid id items l' [v] [x] s2 t C Hin Hg Fi
                       (Forall2_cons _ _ R1 (Forall2_nil _)) S2) as N.
         exact N.
-      + left. cbn. rewrite Hs. reflexivity.
+      + left. split; [cbn; rewrite Hs; reflexivity|left; reflexivity].
   Qed.
 
   (* APPENDS *)
@@ -1263,6 +1267,7 @@ Section StepsF.
           -- rewrite qheap_get_set_same in Hgi. inversion Hgi; subst l2. exact (c_lens0 g id l' Hi Hg).
           -- rewrite qheap_get_set_other in Hgi by exact Ne. exact (c_lens0 g i l2 Hi Hgi).
         * exact c_proto0.
+        * exact c_stale0.
     - set (n := Nlen gitems).
       exists b, (set_stack (set_len st lid (n + Nlen (a0 :: ar)) (negb (n =? cur_len st lid)))
                            (VList lid (gitems ++ rev (a0 :: ar)) :: s2)).
@@ -1271,10 +1276,10 @@ Section StepsF.
       + destruct (n =? cur_len st lid) eqn:En.
         * right. apply N.eqb_eq in En. destruct (full_view _ _ _ _ _ _ C R2 En) as [Hin [l2 [Hg2 Fi]]].
           rewrite Hg in Hg2. inversion Hg2; subst l2.
-          pose proof (core_list_extend b st pst lid id gitems l' (rev (a0 :: ar)) (rev pitems) s2 t (negb true) C Hin Hg Fi
+          pose proof (core_list_extend b st pst lid id gitems l' (rev (a0 :: ar)) (rev pitems) s2 t C Hin Hg Fi
                         (Forall2_rev' _ _ _ _ _ Fa) S2) as N.
           unfold Nlen in N at 2. rewrite rev_length in N. exact N.
-        * left. cbn. rewrite Hs. reflexivity.
+        * left. split; [cbn; rewrite Hs; reflexivity|right; reflexivity].
   Qed.
 End StepsF.
 
@@ -1383,7 +1388,7 @@ Section StepsH.
   (* the decoder state after an instruction, described by its projections *)
   Definition same_but (st st' : dstate) (s : list val) (h : heap) (nx : N) : Prop :=
     d_stack st' = s /\ d_memo st' = d_memo st /\ d_heap st' = h /\ d_next st' = nx /\
-    d_proto st' = d_proto st /\ d_lens st' = d_lens st.
+    d_proto st' = d_proto st /\ d_lens st' = d_lens st /\ d_stale st' = d_stale st.
 
   Lemma R_dict_val : forall b ph g i tr, In (g, i) b -> qheap_get ph i = Some (ODict tr) ->
     Rr b ph (dict_val pd g) (QRef i).
@@ -1399,7 +1404,7 @@ Section StepsH.
     same_but st st' (dict_val pd (d_next st) :: below) h' (d_next st + 1) ->
     CoreI ((d_next st, q_next pst) :: b) st' (qnew pst (ODict tr) t).
   Proof.
-    intros b st pst st' below t vtr tr o' h' C Fb Fp Ao Hg' Ho [Es [Em [Eh [En [Ep El]]]]].
+    intros b st pst st' below t vtr tr o' h' C Fb Fp Ao Hg' Ho [Es [Em [Eh [En [Ep [El Et]]]]]].
     set (gid := d_next st) in *. set (id := q_next pst). set (b' := (gid, id) :: b).
     set (ph' := qheap_set (q_heap pst) id (ODict tr)).
     assert (Hn : qheap_get (q_heap pst) id = None) by (apply fresh_none; exact (c_pbound _ _ _ _ _ C)).
@@ -1438,6 +1443,7 @@ Section StepsH.
       + destruct (NewL _ _ H) as [Ng Ni]. unfold ph' in Hgi. rewrite qheap_get_set_other in Hgi by exact Ni.
         unfold cur_len. rewrite El. exact (c_lens0 g i l' H Hgi).
     - rewrite Ep. exact c_proto0.
+    - rewrite Et. exact c_stale0.
   Qed.
 
   (* an existing dict object assigned to *)
@@ -1451,7 +1457,7 @@ Section StepsH.
     same_but st st' s h' (d_next st) ->
     CoreI b st' (qmutate pst i (ODict (tr ++ new)) s').
   Proof.
-    intros b st pst st' g i tr vtr o vnew new o' h' s s' C Hin Hgi Fv Ao Fn An Hg' Ho Hgo Fs [Es [Em [Eh [En [Ep El]]]]].
+    intros b st pst st' g i tr vtr o vnew new o' h' s s' C Hin Hgi Fv Ao Fn An Hg' Ho Hgo Fs [Es [Em [Eh [En [Ep [El Et]]]]]].
     set (ph' := qheap_set (q_heap pst) i (ODict (tr ++ new))).
     assert (Hh : hext (q_heap pst) ph') by (eapply hext_assign; exact Hgi).
     assert (Hb : incl b b) by (intros p Hp; exact Hp).
@@ -1479,6 +1485,7 @@ Section StepsH.
       + unfold ph' in Hq. rewrite qheap_get_set_other in Hq by exact Ne.
         unfold cur_len. rewrite El. exact (c_lens0 g0 i0 l' Hi0 Hq).
     - rewrite Ep. exact c_proto0.
+    - rewrite Et. exact c_stale0.
   Qed.
 End StepsH.
 
@@ -1770,7 +1777,7 @@ Section Whole.
     assert (Step : forall pst', qstep i pst = Some pst' -> qrun prog pst' = Some (x, pstf) ->
                    outcome x pstf idx st (asm_all (i :: prog) ++ rest)).
     { intros pst' Hq Hr. unfold asm_all. cbn [flat_map]. rewrite <- app_assoc. fold (asm_all prog).
-      destruct (step_sim pd su b st pst pst' idx (asm_all prog ++ rest) i C Hs Hq) as [[b' [st' [E [St|C']]]]|[key [Ek X]]].
+      destruct (step_sim pd su b st pst pst' idx (asm_all prog ++ rest) i C Hs Hq) as [[b' [st' [E [[St _]|C']]]]|[key [Ek X]]].
       - eapply O_stale; eassumption.
       - destruct (d_stale st') eqn:Hs'; [eapply O_stale; eassumption|].
         eapply outcome_step; [exact E|]. eapply IH; eassumption.
@@ -1860,3 +1867,80 @@ Section DictResult.
     exists g, st', b', after, vtr, o. repeat split; assumption.
   Qed.
 End DictResult.
+
+(* ---- programs without APPEND / APPENDS (e.g. everything the encoder emits): no stale-view case ---- *)
+
+Definition no_append (i : insn) : bool := match i with IAppend | IAppends => false | _ => true end.
+
+Lemma no_append_asm : forall i, no_append i = true -> asm i <> [x61] /\ asm i <> [x65].
+Proof. intros i H. destruct i; try discriminate H; cbn [asm]; split; discriminate. Qed.
+
+Section Clean.
+  Variable pd su : bool.
+  Let cfg := Build_dconfig pd su None.
+
+  Inductive outcome2 (x : qv) (pstf : qstate) (idx : N) (st : dstate) (inp : bytes) : Prop :=
+  | O2_good : forall i' st' b' v tl after,
+      exec cfg idx st inp i' st' (x2e :: after) -> d_stack st' = v :: tl ->
+      Core pd su b' (set_stack st' tl) pstf -> R pd su b' (q_heap pstf) v x ->
+      outcome2 x pstf idx st inp
+  | O2_exn : forall i' st' key inp',
+      exec cfg idx st inp i' st' (key :: inp') -> step_exn pd su st' i' key -> outcome2 x pstf idx st inp.
+
+  Lemma outcome2_step : forall x pstf idx st inp i1 st1 inp1,
+    exec cfg idx st inp i1 st1 inp1 -> outcome2 x pstf i1 st1 inp1 -> outcome2 x pstf idx st inp.
+  Proof.
+    intros x pstf idx st inp i1 st1 inp1 E O. destruct O as [i' st' b' v tl after E' S C Rv|i' st' key inp' E' X].
+    - eapply O2_good; [eapply exec_trans; eassumption|eassumption..].
+    - eapply O2_exn; [eapply exec_trans; eassumption|assumption].
+  Qed.
+
+  Theorem run_sim_clean : forall prog b st pst idx x pstf rest,
+    forallb no_append prog = true ->
+    Core pd su b st pst -> qrun prog pst = Some (x, pstf) ->
+    outcome2 x pstf idx st (asm_all prog ++ rest).
+  Proof.
+    induction prog as [|i prog IH]; intros b st pst idx x pstf rest Hna C H; [discriminate|].
+    cbn [forallb] in Hna. apply andb_true_iff in Hna. destruct Hna as [Hi Hna].
+    pose proof (c_stale _ _ _ _ _ C) as Hs.
+    assert (Step : forall pst', qstep i pst = Some pst' -> qrun prog pst' = Some (x, pstf) ->
+                   outcome2 x pstf idx st (asm_all (i :: prog) ++ rest)).
+    { intros pst' Hq Hr. unfold asm_all. cbn [flat_map]. rewrite <- app_assoc. fold (asm_all prog).
+      destruct (step_sim pd su b st pst pst' idx (asm_all prog ++ rest) i C Hs Hq) as [[b' [st' [E [[St Ea]|C']]]]|[key [Ek X]]].
+      - exfalso. destruct (no_append_asm i Hi) as [N1 N2]. destruct Ea; contradiction.
+      - eapply outcome2_step; [exact E|]. eapply IH; eassumption.
+      - rewrite Ek. cbn [app]. eapply O2_exn; [apply exec_refl|exact X]. }
+    destruct i; cbn [qrun] in H;
+      try (destruct (qstep _ pst) as [pst'|] eqn:Hq; [|discriminate]; eapply Step; [reflexivity|exact H]).
+    - (* PROTO *)
+      match type of H with (if ?q <=? 5 then _ else _) = _ => destruct (q <=? 5) eqn:Ep; [|discriminate]; apply N.leb_le in Ep;
+        assert (L : (5 <? q) = false) by (apply N.ltb_ge; exact Ep) end.
+      unfold asm_all. cbn [flat_map asm]. cbn [app]. fold (asm_all prog).
+      eapply outcome2_step.
+      + eapply exec_one; [reflexivity|reflexivity|]. cbn [handler run]. rewrite b2N_N2b by lia.
+        rewrite L. reflexivity.
+      + eapply IH; [exact Hna|apply core_proto; exact C|exact H].
+    - (* STOP *)
+      destruct (q_stack pst) as [|[|v] t] eqn:Q; try discriminate. inversion H; subst x pstf.
+      pose proof (c_stack _ _ _ _ _ C) as S. rewrite Q in S.
+      inversion S as [|gv x0 s1 t0 Hv S1 E1]; subst. cbn [item_rel] in Hv.
+      unfold asm_all. cbn [flat_map asm app].
+      eapply O2_good with (b' := b); [apply exec_refl|symmetry; exact E1| |exact Hv].
+      apply core_stack_only; [exact C|exact S1].
+  Qed.
+
+  Theorem decode_sim_clean : forall prog x pstf rest,
+    forallb no_append prog = true -> qload prog = Some (x, pstf) ->
+    (exists v st' b' after,
+        decode cfg init_state (asm_all prog ++ rest) = ((Ok v, st'), after) /\
+        R pd su b' (q_heap pstf) v x /\ Core pd su b' st' pstf)
+    \/ (pd = false /\ exists e st' after, decode cfg init_state (asm_all prog ++ rest) = ((Err e, st'), after)).
+  Proof.
+    intros prog x pstf rest Hna H. unfold qload in H.
+    destruct (run_sim_clean prog [] (start_state init_state) q_init 0 x pstf rest Hna (core_init pd su) H)
+      as [i' st' b' v tl after E S C Rv|i' st' key inp' E [Hp [op [st'' [e [Ho [Hst Hh]]]]]]].
+    - left. exists v, (set_stack st' tl), b', after. split; [|split; [exact Rv|exact C]].
+      eapply exec_decode; [exact E|exact S|]. eapply R_not_mark. exact Rv.
+    - right. split; [exact Hp|]. exists e, st'', inp'. eapply exec_decode_err; eassumption.
+  Qed.
+End Clean.
